@@ -21,16 +21,24 @@ func init() {
 			"(iii) the claims folded exclude claims that were themselves deleted: an IsDeleted(claim.BlobRef) skip lies on every path to the switch, or every source the folded claims are traced back to (through parameters to all static callers, struct fields to all their stores, call results to the callee's returns) is the result of an AppendClaims method or a filtering append guarded by such a skip; every AppendClaims method appends a claim only behind an IsDeleted(claim.BlobRef) skip. A source that is the raw PermanodeMeta.Claims list is a violation (defect F13, see known_findings.json). " +
 			"A-deleted: each IsDeleted implementation recurses on the DELETER of each deletion record selected by its argument and answers true only where that recursive call returned false (a deleted delete claim does not count); Index.IsDeleted returns only such a core applied to its own argument. " +
 			"A-order: the incremental cache update in fixupLastClaim (a cache step outside the full rebuild) happens only when the last two claims are known to be in date order (or there are fewer than two), every other path rebuilds after sorting; the rebuild sorts Claims before folding and resets the caches; every append to PermanodeMeta.Claims is followed on every path by a fix-up unless the corpus is still building, and the bulk load rebuilds every permanode. " +
-			"NOT decided: the folded values themselves for any concrete history (e.g. duplicate handling of add-attribute differs between Describe and the corpus and is not compared), that Claims really is sorted (only that sort/Less are called), URL-escaping of values, signer filtering, equality of answers between index rows and corpus for any concrete input, anything about future-dated claims when the query time is zero.",
+			"A-own (storage ownership of the attribute caches; the cache type is found by type as the named map-of-slices receiver of the one-claim fold step; a 'cache map' is any value of that type or reached from one through conversions, variables, parameters, results and struct fields, module-wide): " +
+			"(in-place-updates) the writes of entry storage in place are enumerated from SSA - element stores through, append onto, copy into or clear of a slice read from a cache map (also inside callees, stdlib generic bodies included) where the slice goes back under the same map and key; the sharing clauses below are enforced only when at least one exists (today: the del-attribute filter and the add-attribute append in cacheAttrClaim). " +
+			"(entry-store) for every m[k] = x on a cache map, x traced backward through re-slices, conversions, phis, variables, append's first operand, callee returns (bodies followed, with parameters mapped to the call's arguments) and parameters to all static callers consists only of fresh storage (make, a slice of a new array / composite literal, nil, a zero-capacity slice) and of the previous value of the SAME map and key; reaching an entry of a different cache map, or of another key, without an intervening allocation is a violation (re-slicing, slices.Clip, full slice expressions, helper functions do not allocate). " +
+			"(cached-slice-use) every slice read from a cache map (lookup or range), followed forward through aliases, variables, callee parameters (bodies followed) and results of unexported functions to all static callers, is only read (len, element loads, copied out as append's/copy's source, fmt/log operand) or updated and stored back under its own key; returning it from an exported function, storing it in a field, global, other map or channel, handing it to a goroutine, or writing it in place elsewhere is a violation; code without a body is undecided. " +
+			"(holder-store) every store of a cache map into a field of the cache type or into a map of caches stores a map made by make (or nil), or shares another holder's map only on paths where the receiving map of caches is known empty (a len == 0 edge): the single-signer sharing of pm.attr. " +
+			"(apply-once) where one claim is applied to a field-held cache map and to an entry of a map of caches, the two applications cannot both run unless that map is known to hold at least two entries. " +
+			"(cache-map-flow) no cache map is returned by an exported function, stored in a package variable, shallow-copied with maps.Clone, sent on a channel; conversion to an interface (other than as a fmt/log operand), dynamic calls and code without a body are undecided. " +
+			"NOT decided: the folded values themselves for any concrete history (e.g. duplicate handling of add-attribute differs between Describe and the corpus and is not compared), that Claims really is sorted (only that sort/Less are called), URL-escaping of values, signer filtering, equality of answers between index rows and corpus for any concrete input, anything about future-dated claims when the query time is zero. For A-own: that a fresh slice stored into a cache holds the right elements (only that its storage is unshared); that the first signer's entry really is replaced by the copy on every path before a second signer's entry is added (only what is stored, and where sharing is allowed, is checked); aliasing through reflect/unsafe; a field re-assigned between two reads that have the same access path; what callers outside the module do with values they were given.",
 		RuleDocs: map[string]string{
 			"A-fold":    "sibling rule over every function comparing camtypes.Claim.Type with the set/add/del-attribute constants: (i) exhaustive + del distinguishes empty value, (ii) bounded by the query time (or cache handed out only when valid for the time), (iii) deleted claims excluded in the fold or at every traced claim source; AppendClaims methods append only behind an IsDeleted skip",
 			"A-deleted": "every IsDeleted core recurses on the deleter selected by its argument and returns true only on the recursive call's false edge; the Index.IsDeleted dispatcher returns a core applied to its own argument",
+			"A-own":     "ownership of cache storage, given that entries are updated in place (enumerated from SSA): every m[k]=x on a cache map stores fresh storage or the same entry's own previous slice, never (a re-slice/Clip/conversion of) an entry of another cache or key; slices read from a cache are only read or stored back under their own key, never returned by exported functions, kept in fields/globals/other maps or written elsewhere; a cache map is stored into a second holder only fresh or while the map of caches is empty; one claim is not applied to a field-held map and a map-of-caches entry unless >= 2 entries are known; cache maps do not leave the package's unexported code",
 			"A-order":   "the attribute cache is updated incrementally only when the new claim is last in date order; otherwise (and after bulk load) it is rebuilt from the sorted claim list; every append to PermanodeMeta.Claims is followed by that fix-up unless building",
 		},
 		Run:       runC07,
 		DesignRef: "DESIGN.md §4 C07",
-		Technique: "static analysis: sibling comparison of all claim folds found by type; CFG reachability with guard edges removed (time bound, deleted-claim skip, cache validity); inter-procedural back-tracing of the folded claims to their sources through parameters, struct-field stores and call results; dominance facts on recursive IsDeleted calls",
-		LevelText: "Decides structural necessary conditions only: every attribute-claim fold in the tree treats set/add/del alike in shape, is bounded by the query time, and excludes deleted claims either itself or at its claim sources; the attribute cache is only handed out when no claim is newer than the query time and is rebuilt when claims arrive out of date order; deletion tests recurse on the deleter. It does not decide the attribute values for any concrete claim history, nor equality of the index-row and corpus answers.",
+		Technique: "static analysis: sibling comparison of all claim folds found by type; CFG reachability with guard edges removed (time bound, deleted-claim skip, cache validity); inter-procedural back-tracing of the folded claims to their sources through parameters, struct-field stores and call results; dominance facts on recursive IsDeleted calls; for A-own a module-wide forward value-flow of cache maps (by type, through conversions, variables, fields, parameters, results), backward slicing of every stored entry value to its allocation sites and forward escape analysis of every entry read, both inter-procedural with callee bodies (including instantiated stdlib generics) followed and summarised",
+		LevelText: "Decides structural necessary conditions only: every attribute-claim fold in the tree treats set/add/del alike in shape, is bounded by the query time, and excludes deleted claims either itself or at its claim sources; the attribute cache is only handed out when no claim is newer than the query time and is rebuilt when claims arrive out of date order; deletion tests recurse on the deleter; the storage of a cached attribute slice has exactly one owner (one map, one key), so the in-place update of one signer's or the all-signers cache cannot change another cache or a value already handed to a caller. It does not decide the attribute values for any concrete claim history, nor equality of the index-row and corpus answers.",
 	})
 }
 
@@ -43,6 +51,7 @@ func runC07(p *Program, r *Reporter) {
 	c07RuleAppendClaims(cx, r)
 	c07RuleDeleted(cx, r)
 	c07RuleOrder(cx, r, folds)
+	c07RuleOwn(cx, r, folds)
 }
 
 // ---------------------------------------------------------------------------
@@ -681,6 +690,7 @@ func c07CacheConsumers(cx *c07Ctx, r *Reporter, f *c07Fold, construct, site stri
 		return false
 	}
 	readers := map[*ssa.Function]token.Pos{}
+	writers := map[*ssa.Function]token.Pos{}
 	for _, g := range p.AllFuncs {
 		if g.Pkg == nil || IsTestSupportPkg(RelPkg(g.Pkg.Pkg)) {
 			continue
@@ -689,6 +699,13 @@ func c07CacheConsumers(cx *c07Ctx, r *Reporter, f *c07Fold, construct, site stri
 			for _, in := range b.Instrs {
 				fa, ok := in.(*ssa.FieldAddr)
 				if !ok || !holdsCache(c07Deref(fa.Type())) {
+					continue
+				}
+				if c07WriteOnly(fa) {
+					// replaces the field, or inserts into / measures the map of caches: nothing is read out
+					if _, seen := writers[TopFunc(g)]; !seen {
+						writers[TopFunc(g)] = fa.Pos()
+					}
 					continue
 				}
 				if _, seen := readers[TopFunc(g)]; !seen {
@@ -701,8 +718,17 @@ func c07CacheConsumers(cx *c07Ctx, r *Reporter, f *c07Fold, construct, site stri
 	for g := range readers {
 		keys = append(keys, g)
 	}
+	for g := range writers {
+		if _, isReader := readers[g]; !isReader {
+			keys = append(keys, g)
+		}
+	}
 	sort.Slice(keys, func(i, j int) bool { return FuncKey(keys[i]) < FuncKey(keys[j]) })
 	for _, g := range keys {
+		if _, isReader := readers[g]; !isReader {
+			r.OK("A-fold", FuncKey(g)+"#reads-cache", p.Pos(writers[g]), "only replaces the attribute-cache fields or inserts into / measures the map of caches; reads no cache out of them")
+			continue
+		}
 		isConsumer := false
 		for _, c := range consumers {
 			if c == g {
@@ -728,6 +754,49 @@ func c07CacheConsumers(cx *c07Ctx, r *Reporter, f *c07Fold, construct, site stri
 			"touches the attribute-cache fields as the time-checked accessor or as part of the cache builder",
 			fmt.Sprintf("(ii) %s reads the %s cache fields directly; only the time-checked accessor may hand the cache to queries, otherwise a historical query sees present-time attributes", FuncKey(g), cacheT.Obj().Name()))
 	}
+}
+
+// c07WriteOnly: the field address is used only to store a new value, or its
+// loaded map is used only as the target of map updates/deletes and by len.
+func c07WriteOnly(fa *ssa.FieldAddr) bool {
+	refs := fa.Referrers()
+	if refs == nil {
+		return true
+	}
+	for _, u := range *refs {
+		switch x := u.(type) {
+		case *ssa.DebugRef:
+		case *ssa.Store:
+			if x.Addr != ssa.Value(fa) {
+				return false
+			}
+		case *ssa.UnOp:
+			if x.Op != token.MUL {
+				return false
+			}
+			if _, isMap := x.Type().Underlying().(*types.Map); !isMap || x.Referrers() == nil {
+				return false
+			}
+			for _, lu := range *x.Referrers() {
+				switch y := lu.(type) {
+				case *ssa.DebugRef:
+				case *ssa.MapUpdate:
+					if y.Map != ssa.Value(x) || y.Value == ssa.Value(x) {
+						return false
+					}
+				case *ssa.Call:
+					if n := c07Builtin(y.Common()); n != "len" && n != "delete" {
+						return false
+					}
+				default:
+					return false
+				}
+			}
+		default:
+			return false
+		}
+	}
+	return true
 }
 
 // c07CheckConsumer: every return of a non-nil cache (with ok not constant
@@ -1721,4 +1790,1542 @@ func c07RuleOrder(cx *c07Ctx, r *Reporter, folds []*c07Fold) {
 	}
 	// today: restoreInvariants#rebuild, fixupLastClaim#incremental, mergeClaimRow#claims-append, scanFromStorage#...building-cleared
 	r.Floor("A-order", 4)
+}
+
+// ---------------------------------------------------------------------------
+// A-own: distinct attribute caches never share slice storage
+//
+// The attribute cache type (a named map from attribute to []string, found as
+// the receiver of the one-claim fold step) is maintained IN PLACE: the fold
+// step appends to and filters the slice of an entry and stores it back under
+// the same key. That is only right while the storage of an entry is reachable
+// from exactly one (map, key). The rule follows
+//   - whole cache maps forward (type, conversions, fields, results, parameters)
+//     to find every entry read, entry store and escape;
+//   - every stored entry value backward to what it is made of;
+//   - every entry read forward to what happens with the slice.
+
+type c07Issue struct {
+	bad  bool // true: violation, false: undecided
+	fn   *ssa.Function
+	pos  token.Pos
+	what string
+}
+
+type c07Root struct {
+	v    ssa.Value // the cached []string as read
+	m, k ssa.Value // the map and key it was read from
+	fn   *ssa.Function
+}
+
+type c07Mutation struct {
+	fn   *ssa.Function // function holding the cached slice (root function)
+	at   *ssa.Function // function containing the write
+	pos  token.Pos
+	how  string
+	root *c07Root
+}
+
+type c07SumKey struct {
+	fn  *ssa.Function
+	idx int
+}
+
+// c07Summary: what a callee does with a slice parameter.
+type c07Summary struct {
+	done     bool
+	retAlias map[int]bool // result indices that may alias the parameter
+	muts     []c07Mutation
+	issues   []c07Issue
+}
+
+type c07Own struct {
+	cx     *c07Ctx
+	p      *Program
+	cacheT *types.Named
+	step   *ssa.Function
+
+	inScope    map[*ssa.Function]bool
+	cm         map[ssa.Value]bool // values that are (aliases of) a cache map
+	work       []ssa.Value
+	fieldReads map[string][]ssa.Value
+	carriers   map[string]bool
+	mapIssues  []c07Issue
+	roots      []*c07Root
+	rootSeen   map[ssa.Value]bool
+	updates    []*ssa.MapUpdate
+	updSeen    map[*ssa.MapUpdate]bool
+	sums       map[c07SumKey]*c07Summary
+}
+
+func c07RuleOwn(cx *c07Ctx, r *Reporter, folds []*c07Fold) {
+	p := cx.p
+	o := &c07Own{cx: cx, p: p, inScope: map[*ssa.Function]bool{}, cm: map[ssa.Value]bool{}, carriers: map[string]bool{},
+		rootSeen: map[ssa.Value]bool{}, updSeen: map[*ssa.MapUpdate]bool{}, sums: map[c07SumKey]*c07Summary{}}
+	// today: 4 entry stores, 4 holder stores, 6 functions reading entries, 1 double application,
+	// the list of in-place updates, the map-flow summary = 17
+	defer r.Floor("A-own", 16)
+	for _, f := range folds {
+		if !c07IsParam(f.handle) || f.fn.Signature.Recv() == nil {
+			continue
+		}
+		n := NamedOf(f.fn.Signature.Recv().Type())
+		if n == nil {
+			continue
+		}
+		if mt, ok := n.Underlying().(*types.Map); ok {
+			if _, ok := mt.Elem().Underlying().(*types.Slice); ok {
+				if o.cacheT != nil && !types.Identical(o.cacheT, n) {
+					r.Undecided("A-own", "cache-type", p.Pos(f.fn.Pos()), fmt.Sprintf("two attribute cache types found (%s and %s); this rule models one", typeKey(o.cacheT), typeKey(n)))
+					return
+				}
+				o.cacheT, o.step = n, f.fn
+			}
+		}
+	}
+	if o.cacheT == nil {
+		r.Violation("A-own", "cache-type", "", "no fold step with a named map-of-slices receiver was found; the ownership rule has nothing to anchor on")
+		return
+	}
+	for _, fn := range p.AllFuncs {
+		if fn.Pkg == nil || IsTestSupportPkg(RelPkg(fn.Pkg.Pkg)) {
+			continue
+		}
+		o.inScope[fn] = true
+	}
+	o.findCacheMaps()
+
+	// 1. what does each read of an entry do with the slice
+	type perFn struct {
+		fn     *ssa.Function
+		roots  int
+		muts   []c07Mutation
+		issues []c07Issue
+		pos    token.Pos
+	}
+	byFn := map[*ssa.Function]*perFn{}
+	var fnOrder []*perFn
+	var ownMuts []c07Mutation
+	for _, rt := range o.roots {
+		pf := byFn[rt.fn]
+		if pf == nil {
+			pf = &perFn{fn: rt.fn, pos: rt.v.Pos()}
+			if !pf.pos.IsValid() {
+				pf.pos = rt.m.Pos()
+			}
+			if !pf.pos.IsValid() {
+				pf.pos = rt.fn.Pos()
+			}
+			byFn[rt.fn] = pf
+			fnOrder = append(fnOrder, pf)
+		}
+		pf.roots++
+		w := &c07SliceWalk{o: o, root: rt, seen: map[ssa.Value]bool{}}
+		w.push(rt.v)
+		w.run()
+		pf.issues = append(pf.issues, w.issues...)
+		// in-place writes are the entry's own update when the slice goes back under the same (map, key)
+		own := false
+		for _, mu := range w.stores {
+			if c07SameVal(mu.Map, rt.m) && rt.k != nil && c07SameVal(mu.Key, rt.k) {
+				own = true
+			}
+		}
+		for _, m := range w.muts {
+			if own {
+				ownMuts = append(ownMuts, m)
+			} else {
+				pf.muts = append(pf.muts, m)
+			}
+		}
+	}
+	sort.Slice(fnOrder, func(i, j int) bool { return FuncKeyAny(fnOrder[i].fn) < FuncKeyAny(fnOrder[j].fn) })
+
+	// 2. the precondition: somebody writes cached storage in place
+	mutWhere := map[string]bool{}
+	var firstMut *c07Mutation
+	for i, m := range ownMuts {
+		mutWhere[fmt.Sprintf("%s (%s)", FuncKeyAny(m.fn), m.how)] = true
+		if firstMut == nil {
+			firstMut = &ownMuts[i]
+		}
+	}
+	var mutList []string
+	for k := range mutWhere {
+		mutList = append(mutList, k)
+	}
+	sort.Strings(mutList)
+	inPlace := len(mutList) > 0
+	because := "no code writes cached storage in place"
+	if inPlace {
+		because = "entries are updated in place by " + strings.Join(mutList, ", ")
+		r.OK("A-own", "in-place-updates", p.Pos(firstMut.pos), fmt.Sprintf("the storage of a cache entry is written in place (element stores through, or append onto, a slice read from the map and stored back under the same key): %s; so entry storage must have exactly one owner", strings.Join(mutList, ", ")))
+	} else {
+		r.OKTable("A-own", "in-place-updates", p.Pos(o.step.Pos()), "no function writes the storage of a cache entry in place; shared storage between entries would be harmless, the sharing clauses below are reported but not enforced")
+	}
+	shareViolation := func(construct, site, detail string) {
+		if inPlace {
+			r.Violation("A-own", construct, site, detail+"; "+because)
+		} else {
+			r.OKTable("A-own", construct, site, "not enforced ("+because+"): "+detail)
+		}
+	}
+
+	// 3. every store of an entry
+	sort.SliceStable(o.updates, func(i, j int) bool {
+		a, b := o.updates[i], o.updates[j]
+		if ka, kb := FuncKeyAny(a.Parent()), FuncKeyAny(b.Parent()); ka != kb {
+			return ka < kb
+		}
+		if a.Block().Index != b.Block().Index {
+			return a.Block().Index < b.Block().Index
+		}
+		return instrIndex(a) < instrIndex(b)
+	})
+	for _, mu := range o.updates {
+		fn := mu.Parent()
+		construct := FuncKeyAny(fn) + "#entry-store"
+		site := p.Pos(mu.Pos())
+		var leaves []c07Leaf
+		sw := &c07SrcWalk{o: o, seen: map[c07SrcKey]bool{}}
+		sw.walk(mu.Value, nil, false, 0)
+		leaves = sw.out
+		var fresh, own int
+		var bad, unk []string
+		for _, lf := range leaves {
+			switch lf.kind {
+			case "fresh", "empty":
+				fresh++
+			case "entry":
+				switch {
+				case c07SameVal(lf.m, mu.Map) && lf.k != nil && c07SameVal(lf.k, mu.Key) && !lf.viaCaller:
+					own++
+				case lf.viaCaller:
+					unk = append(unk, fmt.Sprintf("a cache entry read in a caller (%s); cannot compare it with the entry stored here", p.Pos(lf.pos)))
+				case c07SameVal(lf.m, mu.Map):
+					bad = append(bad, fmt.Sprintf("the slice of ANOTHER key of the same map (read at %s)", p.Pos(lf.pos)))
+				default:
+					bad = append(bad, fmt.Sprintf("the slice of an entry of a DIFFERENT cache map (read at %s) through re-slicing/clipping/conversion only, without a copy", p.Pos(lf.pos)))
+				}
+			default:
+				unk = append(unk, fmt.Sprintf("%s (%s)", lf.what, p.Pos(lf.pos)))
+			}
+		}
+		switch {
+		case len(bad) > 0:
+			shareViolation(construct, site, fmt.Sprintf("%s stores into an attribute cache %s: the two entries alias one backing array, so an in-place update through one (del-attribute with a value filters in place; add-attribute appends into spare capacity) changes the values seen through the other", FuncKeyAny(fn), strings.Join(c07Uniq(bad), "; ")))
+		case len(unk) > 0:
+			r.Undecided("A-own", construct, site, fmt.Sprintf("%s stores into an attribute cache a slice whose storage cannot be shown to be owned by that entry alone: %s", FuncKeyAny(fn), strings.Join(c07Uniq(unk), "; ")))
+		case fresh+own == 0:
+			r.Undecided("A-own", construct, site, fmt.Sprintf("%s: the stored value could not be traced", FuncKeyAny(fn)))
+		default:
+			r.OK("A-own", construct, site, fmt.Sprintf("the stored slice is made only of freshly allocated/empty storage (%d source(s)) and of the same entry's previous value (%d source(s))", fresh, own))
+		}
+	}
+
+	// 4. every read of an entry
+	for _, pf := range fnOrder {
+		construct := FuncKeyAny(pf.fn) + "#cached-slice-use"
+		site := p.Pos(pf.pos)
+		var bad, unk []string
+		for _, is := range pf.issues {
+			s := fmt.Sprintf("%s (%s)", is.what, p.Pos(is.pos))
+			if is.bad {
+				bad = append(bad, s)
+			} else {
+				unk = append(unk, s)
+			}
+		}
+		for _, m := range pf.muts {
+			bad = append(bad, fmt.Sprintf("its storage is written in place (%s, %s) although the slice is not stored back under the key it was read from", m.how, p.Pos(m.pos)))
+		}
+		switch {
+		case len(bad) > 0:
+			shareViolation(construct, site, fmt.Sprintf("%s reads a cached attribute slice and %s: the cache keeps updating that storage in place, so the holder sees values that were never the attribute's values (and what the holder writes lands in the cache)", FuncKeyAny(pf.fn), strings.Join(c07Uniq(bad), "; ")))
+		case len(unk) > 0:
+			r.Undecided("A-own", construct, site, fmt.Sprintf("%s reads a cached attribute slice; cannot show it stays private to the cache: %s", FuncKeyAny(pf.fn), strings.Join(c07Uniq(unk), "; ")))
+		default:
+			r.OK("A-own", construct, site, fmt.Sprintf("%d read(s) of a cache entry: the slice is only read (len, element loads, copied out by append/copy) or updated and stored back under the same key; it is not returned by an exported function, stored in a field/global/other map, nor passed to code that keeps or writes it", pf.roots))
+		}
+	}
+
+	// 5. whole maps: holders and escapes
+	o.holderStores(r, shareViolation)
+	o.applyOnce(r)
+	var bad, unk []string
+	var firstPos token.Pos
+	for _, is := range o.mapIssues {
+		if !firstPos.IsValid() {
+			firstPos = is.pos
+		}
+		s := fmt.Sprintf("%s in %s (%s)", is.what, FuncKeyAny(is.fn), p.Pos(is.pos))
+		if is.bad {
+			bad = append(bad, s)
+		} else {
+			unk = append(unk, s)
+		}
+	}
+	var carr []string
+	for k := range o.carriers {
+		carr = append(carr, k)
+	}
+	sort.Strings(carr)
+	switch {
+	case len(bad) > 0:
+		shareViolation("cache-map-flow", p.Pos(firstPos), "a whole attribute cache map leaves the cache: "+strings.Join(c07Uniq(bad), "; "))
+	case len(unk) > 0:
+		r.Undecided("A-own", "cache-map-flow", p.Pos(firstPos), "cannot follow a cache map: "+strings.Join(c07Uniq(unk), "; "))
+	default:
+		r.OK("A-own", "cache-map-flow", p.Pos(o.step.Pos()), fmt.Sprintf("every value of type %s was followed through conversions, variables, parameters, results and fields (carriers beyond the type itself: %v); no cache map is returned by an exported function, stored in a global, converted to an interface or passed to code without a body", o.cacheT.Obj().Name(), carr))
+	}
+	r.Analysed("cache_map_values", len(o.cm))
+	r.Analysed("cache_entry_reads", len(o.roots))
+}
+
+// c07SameVal: two values of one function denote the same run-time value as far
+// as a local analysis can tell: same origin, or the same access path
+// (parameter/field/constant chain) - two loads of pm.attr, two loads of cl.Attr.
+func c07SameVal(a, b ssa.Value) bool {
+	if a == nil || b == nil {
+		return false
+	}
+	if a == b || originValue(a) == originValue(b) {
+		return true
+	}
+	pa, pb := AccessPath(a), AccessPath(b)
+	return pa == pb && !strings.Contains(pa, "?")
+}
+
+func c07Exported(fn *ssa.Function) bool {
+	if fn.Parent() != nil {
+		return false
+	}
+	obj := fn.Object()
+	if obj == nil || !obj.Exported() {
+		return false
+	}
+	if recv := fn.Signature.Recv(); recv != nil {
+		n := NamedOf(recv.Type())
+		return n != nil && n.Obj().Exported()
+	}
+	return true
+}
+
+// c07LoadsOf lists the loads of a local variable in its function and nested literals.
+func c07LoadsOf(cell *ssa.Alloc) []ssa.Value {
+	var out []ssa.Value
+	var walk func(f *ssa.Function)
+	walk = func(f *ssa.Function) {
+		for _, b := range f.Blocks {
+			for _, in := range b.Instrs {
+				if ld, ok := in.(*ssa.UnOp); ok && ld.Op == token.MUL {
+					if c, ok := varOf(ld.X); ok && c == ssa.Value(cell) {
+						out = append(out, ld)
+					}
+				}
+			}
+		}
+		for _, a := range f.AnonFuncs {
+			walk(a)
+		}
+	}
+	walk(cell.Parent())
+	return out
+}
+
+// c07OnlyFormatted: the interface value is used only as an operand of a call
+// into package fmt or log (directly or through the variadic operand array).
+// Table entry, one reason: the formatting functions read their operands while
+// the call runs and keep no reference to them.
+func c07OnlyFormatted(mi *ssa.MakeInterface) bool {
+	isFmt := func(in ssa.Instruction) bool {
+		ci, ok := in.(ssa.CallInstruction)
+		if !ok {
+			return false
+		}
+		if _, isGo := in.(*ssa.Go); isGo {
+			return false
+		}
+		f := ci.Common().StaticCallee()
+		if f == nil || f.Pkg == nil {
+			return false
+		}
+		pk := f.Pkg.Pkg.Path()
+		return pk == "fmt" || pk == "log"
+	}
+	refs := mi.Referrers()
+	if refs == nil {
+		return true
+	}
+	for _, u := range *refs {
+		switch y := u.(type) {
+		case *ssa.DebugRef:
+		case *ssa.Store:
+			ia, ok := y.Addr.(*ssa.IndexAddr)
+			if !ok || y.Val != ssa.Value(mi) {
+				return false
+			}
+			al, ok := ia.X.(*ssa.Alloc)
+			if !ok || al.Referrers() == nil {
+				return false
+			}
+			for _, au := range *al.Referrers() {
+				switch z := au.(type) {
+				case *ssa.IndexAddr, *ssa.DebugRef:
+				case *ssa.Slice:
+					if z.Referrers() == nil {
+						continue
+					}
+					for _, su := range *z.Referrers() {
+						if _, isDbg := su.(*ssa.DebugRef); !isDbg && !isFmt(su) {
+							return false
+						}
+					}
+				default:
+					return false
+				}
+			}
+		default:
+			if !isFmt(u) {
+				return false
+			}
+		}
+	}
+	return true
+}
+
+func c07Builtin(cc *ssa.CallCommon) string {
+	if bi, ok := cc.Value.(*ssa.Builtin); ok {
+		return bi.Name()
+	}
+	return ""
+}
+
+// c07ZeroCap: a slice expression whose capacity is the constant 0 owns no storage.
+func c07ZeroCap(s *ssa.Slice) bool {
+	if s.Max == nil {
+		return false
+	}
+	n, ok := ConstInt(s.Max)
+	return ok && n == 0
+}
+
+// c07ResultValues: the values at a call site that receive result idx.
+func c07ResultValues(c CallSite, idx int) []ssa.Value {
+	call := c.Value()
+	if call == nil {
+		return nil
+	}
+	if call.Common().Signature().Results().Len() == 1 {
+		return []ssa.Value{call}
+	}
+	var out []ssa.Value
+	if refs := call.Referrers(); refs != nil {
+		for _, rf := range *refs {
+			if ex, ok := rf.(*ssa.Extract); ok && ex.Index == idx {
+				out = append(out, ex)
+			}
+		}
+	}
+	return out
+}
+
+// ---- whole cache maps, forward
+
+func (o *c07Own) addCM(v ssa.Value) {
+	if v == nil || o.cm[v] {
+		return
+	}
+	if _, isConst := v.(*ssa.Const); isConst {
+		return
+	}
+	o.cm[v] = true
+	o.work = append(o.work, v)
+}
+
+func (o *c07Own) mapIssue(bad bool, in ssa.Instruction, what string) {
+	o.mapIssues = append(o.mapIssues, c07Issue{bad, in.Parent(), in.Pos(), what})
+}
+
+func (o *c07Own) findCacheMaps() {
+	p := o.p
+	o.fieldReads = map[string][]ssa.Value{}
+	isCache := func(t types.Type) bool { return types.Identical(t, o.cacheT) }
+	for _, fn := range p.AllFuncs {
+		if !o.inScope[fn] {
+			continue
+		}
+		for _, prm := range fn.Params {
+			if isCache(prm.Type()) {
+				o.addCM(prm)
+			}
+		}
+		for _, fv := range fn.FreeVars {
+			if isCache(fv.Type()) {
+				o.addCM(fv)
+			}
+		}
+		for _, b := range fn.Blocks {
+			for _, in := range b.Instrs {
+				switch x := in.(type) {
+				case *ssa.UnOp:
+					if fa, ok := x.X.(*ssa.FieldAddr); ok && x.Op == token.MUL {
+						k := c07FieldKey(fa.X.Type(), fieldName(fa.X.Type(), fa.Field))
+						o.fieldReads[k] = append(o.fieldReads[k], x)
+					}
+				case *ssa.Field:
+					k := c07FieldKey(x.X.Type(), fieldName(x.X.Type(), x.Field))
+					o.fieldReads[k] = append(o.fieldReads[k], x)
+				}
+				if v, ok := in.(ssa.Value); ok && isCache(v.Type()) {
+					o.addCM(v)
+				}
+			}
+		}
+	}
+	for len(o.work) > 0 {
+		v := o.work[len(o.work)-1]
+		o.work = o.work[:len(o.work)-1]
+		refs := v.Referrers()
+		if refs == nil {
+			continue
+		}
+		for _, rf := range *refs {
+			o.cmUse(v, rf)
+		}
+	}
+}
+
+func (o *c07Own) addRoot(v, m, k ssa.Value, fn *ssa.Function) {
+	if o.rootSeen[v] {
+		return
+	}
+	o.rootSeen[v] = true
+	o.roots = append(o.roots, &c07Root{v: v, m: m, k: k, fn: fn})
+}
+
+func (o *c07Own) cmUse(v ssa.Value, rf ssa.Instruction) {
+	p := o.p
+	isCache := func(t types.Type) bool { return types.Identical(t, o.cacheT) }
+	switch x := rf.(type) {
+	case *ssa.DebugRef, *ssa.BinOp, *ssa.If:
+	case *ssa.ChangeType:
+		o.addCM(x)
+	case *ssa.Convert:
+		o.addCM(x)
+	case *ssa.Phi:
+		o.addCM(x)
+	case *ssa.Lookup:
+		if x.X != v {
+			return
+		}
+		if !x.CommaOk {
+			o.addRoot(x, v, x.Index, x.Parent())
+			return
+		}
+		if refs := x.Referrers(); refs != nil {
+			for _, u := range *refs {
+				if ex, ok := u.(*ssa.Extract); ok && ex.Index == 0 {
+					o.addRoot(ex, v, x.Index, x.Parent())
+				}
+			}
+		}
+	case *ssa.Range:
+		refs := x.Referrers()
+		if refs == nil {
+			return
+		}
+		for _, u := range *refs {
+			nx, ok := u.(*ssa.Next)
+			if !ok {
+				o.mapIssue(false, u, "unmodelled use of a range iterator over a cache map")
+				continue
+			}
+			var key ssa.Value
+			var elems []*ssa.Extract
+			if nr := nx.Referrers(); nr != nil {
+				for _, e := range *nr {
+					if ex, ok := e.(*ssa.Extract); ok {
+						switch ex.Index {
+						case 1:
+							key = ex
+						case 2:
+							elems = append(elems, ex)
+						}
+					}
+				}
+			}
+			for _, ex := range elems {
+				o.addRoot(ex, v, key, x.Parent())
+			}
+		}
+	case *ssa.MapUpdate:
+		if x.Map == v && !o.updSeen[x] {
+			o.updSeen[x] = true
+			o.updates = append(o.updates, x)
+		}
+		if x.Value == v {
+			mt, _ := x.Map.Type().Underlying().(*types.Map)
+			if mt == nil || !isCache(mt.Elem()) {
+				o.mapIssue(false, x, "a cache map is stored into a map whose element type is not the cache type")
+			}
+		}
+	case *ssa.Store:
+		if x.Val != v {
+			return
+		}
+		switch a := x.Addr.(type) {
+		case *ssa.FieldAddr:
+			k := c07FieldKey(a.X.Type(), fieldName(a.X.Type(), a.Field))
+			if !isCache(c07Deref(a.Type())) {
+				o.carriers["field "+k] = true
+			}
+			for _, rd := range o.fieldReads[k] {
+				o.addCM(rd)
+			}
+		default:
+			cell, ok := varOf(x.Addr)
+			if al, isAlloc := cell.(*ssa.Alloc); ok && isAlloc {
+				for _, ld := range c07LoadsOf(al) {
+					o.addCM(ld)
+				}
+				return
+			}
+			if g, isGlobal := cell.(*ssa.Global); ok && isGlobal {
+				o.mapIssue(true, x, "stored into package variable "+g.Name())
+				return
+			}
+			if !isCache(c07Deref(x.Addr.Type())) {
+				o.mapIssue(false, x, "stored through an address this rule does not model")
+			}
+			// a typed location: its loads are cache maps by type
+		}
+	case *ssa.Return:
+		fn := x.Parent()
+		for i, res := range x.Results {
+			if res != v {
+				continue
+			}
+			if c07Exported(fn) && o.inScope[fn] {
+				o.mapIssue(true, x, fmt.Sprintf("returned by exported %s to callers that do not hold the cache's lock for as long as they use it", FuncKeyAny(fn)))
+				continue
+			}
+			typed := isCache(fn.Signature.Results().At(i).Type())
+			if !typed {
+				o.carriers[fmt.Sprintf("result %d of %s", i, FuncKeyAny(fn))] = true
+				if fn.Parent() != nil || len(p.FuncValueUses(fn)) > 0 || len(p.InvokeSites(fn)) > 0 {
+					o.mapIssue(false, x, "returned (under another type) by a function that is called dynamically")
+					continue
+				}
+			}
+			for _, c := range p.StaticCallers(fn) {
+				for _, rv := range c07ResultValues(c, i) {
+					o.addCM(rv)
+				}
+			}
+		}
+	case *ssa.MakeClosure:
+		lf := x.Fn.(*ssa.Function)
+		for i, b := range x.Bindings {
+			if b == v && i < len(lf.FreeVars) {
+				o.addCM(lf.FreeVars[i])
+			}
+		}
+	case ssa.CallInstruction:
+		cc := x.Common()
+		if name := c07Builtin(cc); name != "" {
+			return // len, delete, clear, print
+		}
+		cs := CallSite{x.Parent(), x}
+		callee := cs.Callee()
+		for i, a := range cc.Args {
+			if a != v {
+				continue
+			}
+			if cc.IsInvoke() || callee == nil {
+				o.mapIssue(false, x, "passed to a dynamically dispatched call "+cs.CalleeKey())
+				continue
+			}
+			if funcIs(callee.Origin(), "maps", "", "Clone") || funcIs(callee, "maps", "", "Clone") {
+				o.mapIssue(true, x, "shallow-copied with maps.Clone: the copy shares the slice of every entry with the original")
+				continue
+			}
+			if callee.Blocks == nil || i >= len(callee.Params) {
+				o.mapIssue(false, x, "passed to "+cs.CalleeKey()+", which has no body to follow")
+				continue
+			}
+			o.addCM(callee.Params[i])
+		}
+		if cc.IsInvoke() && cc.Value == v {
+			o.mapIssue(false, x, "used as the receiver of an interface call")
+		}
+	case *ssa.MakeInterface:
+		if !c07OnlyFormatted(x) {
+			o.mapIssue(false, x, "converted to an interface value that is not merely an operand of a fmt/log call")
+		}
+	case *ssa.Send:
+		o.mapIssue(true, x, "sent on a channel")
+	default:
+		o.mapIssue(false, rf, fmt.Sprintf("unmodelled use %T", rf))
+	}
+}
+
+// holderStores: a cache map stored into a holder (a field of the cache type, a
+// map of caches) is fresh, or - the single-signer optimisation - shared with
+// another holder only where the receiving map of caches is known to be empty.
+func (o *c07Own) holderStores(r *Reporter, shareViolation func(construct, site, detail string)) {
+	p := o.p
+	isCache := func(t types.Type) bool { return types.Identical(t, o.cacheT) }
+	type hs struct {
+		in     ssa.Instruction
+		val    ssa.Value
+		holder ssa.Value // the map of caches (nil for a field store)
+		what   string
+	}
+	var all []hs
+	for _, fn := range p.AllFuncs {
+		if !o.inScope[fn] {
+			continue
+		}
+		for _, b := range fn.Blocks {
+			for _, in := range b.Instrs {
+				switch x := in.(type) {
+				case *ssa.MapUpdate:
+					if mt, ok := x.Map.Type().Underlying().(*types.Map); ok && isCache(mt.Elem()) {
+						all = append(all, hs{x, x.Value, x.Map, "an entry of " + AccessPath(x.Map)})
+					}
+				case *ssa.Store:
+					if !isCache(x.Val.Type()) {
+						continue
+					}
+					if fa, ok := x.Addr.(*ssa.FieldAddr); ok {
+						all = append(all, hs{x, x.Val, nil, "field " + c07FieldKey(fa.X.Type(), fieldName(fa.X.Type(), fa.Field))})
+						continue
+					}
+					if cell, ok := varOf(x.Addr); ok {
+						if _, isAlloc := cell.(*ssa.Alloc); isAlloc {
+							continue // a local variable is not a holder
+						}
+					}
+					all = append(all, hs{x, x.Val, nil, "a location reached through a pointer"})
+				}
+			}
+		}
+	}
+	for _, h := range all {
+		fn := h.in.Parent()
+		construct := FuncKeyAny(fn) + "#holder-store"
+		site := p.Pos(h.in.Pos())
+		kinds := map[string]token.Pos{}
+		c07MapSources(o, h.val, map[ssa.Value]bool{}, 0, kinds)
+		_, shared := kinds["shared"]
+		_, unknown := kinds["unknown"]
+		switch {
+		case unknown:
+			r.Undecided("A-own", construct, site, fmt.Sprintf("%s stores into %s a cache map that is neither a fresh make nor read from another holder (%s)", FuncKeyAny(fn), h.what, p.Pos(kinds["unknown"])))
+		case !shared:
+			r.OK("A-own", construct, site, fmt.Sprintf("%s receives a map made by make in this call chain (or nil): a new, unshared cache", h.what))
+		case h.holder == nil:
+			shareViolation(construct, site, fmt.Sprintf("%s makes %s reference a cache map that another holder already references (read at %s); this rule accepts a shared map only as the sole entry of a map of caches", FuncKeyAny(fn), h.what, p.Pos(kinds["shared"])))
+		default:
+			// the receiving map of caches must be known empty
+			removed := map[c07Edge]bool{}
+			for _, b := range fn.Blocks {
+				for _, in := range b.Instrs {
+					bo, ok := in.(*ssa.BinOp)
+					if !ok {
+						continue
+					}
+					call, ok := bo.X.(*ssa.Call)
+					if !ok || c07Builtin(call.Common()) != "len" || !c07SameVal(call.Call.Args[0], h.holder) {
+						continue
+					}
+					n, ok := ConstInt(bo.Y)
+					if !ok {
+						continue
+					}
+					emptyWhenTrue := (bo.Op == token.EQL && n == 0) || (bo.Op == token.LSS && n == 1) || (bo.Op == token.LEQ && n == 0)
+					emptyWhenFalse := (bo.Op == token.NEQ && n == 0) || (bo.Op == token.GTR && n == 0) || (bo.Op == token.GEQ && n == 1)
+					for _, e := range c07IfEdges(fn, func(v ssa.Value) bool { return v == ssa.Value(bo) }) {
+						if emptyWhenTrue {
+							removed[e] = true
+						} else if emptyWhenFalse {
+							removed[c07Other(e)] = true
+						}
+					}
+				}
+			}
+			if len(removed) == 0 || c07Reach(fn.Blocks[0], h.in.Block(), removed) {
+				shareViolation(construct, site, fmt.Sprintf("%s stores into %s a cache map that another holder references (read at %s) on a path where that map of caches is not known to be empty: two signers (or all-signers and one of several signers) then fold their claims into one map", FuncKeyAny(fn), h.what, p.Pos(kinds["shared"])))
+				continue
+			}
+			r.OK("A-own", construct, site, fmt.Sprintf("%s receives a map shared with another holder only on paths where len(%s) is known 0: it becomes the only entry (single-signer sharing)", h.what, AccessPath(h.holder)))
+		}
+	}
+}
+
+// applyOnce: holderStores accepts ONE map referenced by a field holder and by
+// the only entry of a map of caches. A function that applies one claim to two
+// cache maps, one read from a field and one read from an entry of a map of
+// caches H, therefore applies it twice to the same map unless len(H) >= 2 is
+// known on the way.
+func (o *c07Own) applyOnce(r *Reporter) {
+	p := o.p
+	for _, fn := range p.AllFuncs {
+		if !o.inScope[fn] {
+			continue
+		}
+		calls := FindCalls(fn, false, func(c CallSite) bool { return c.Callee() == o.step && c.Value() != nil && len(c.Args()) == 2 })
+		if len(calls) < 2 {
+			continue
+		}
+		construct := FuncKeyAny(fn) + "#apply-once"
+		pairs, guarded := 0, 0
+		bad := ""
+		var badPos token.Pos
+		for _, c1 := range calls {
+			for _, c2 := range calls {
+				if c1.Instr == c2.Instr || !c07SameVal(c1.Args()[1], c2.Args()[1]) {
+					continue
+				}
+				if c1.Block() == c2.Block() {
+					if instrIndex(c1.Instr) > instrIndex(c2.Instr) {
+						continue
+					}
+				} else if !c07Reach(c1.Block(), c2.Block(), nil) {
+					continue
+				}
+				r1, r2 := c1.Args()[0], c2.Args()[0]
+				if c07SameVal(r1, r2) {
+					bad, badPos = "applies one claim twice to the same cache map", c2.Pos()
+					continue
+				}
+				k1, k2 := map[string]token.Pos{}, map[string]token.Pos{}
+				var h1, h2 []ssa.Value
+				c07MapSourcesH(o, r1, map[ssa.Value]bool{}, 0, k1, &h1)
+				c07MapSourcesH(o, r2, map[ssa.Value]bool{}, 0, k2, &h2)
+				_, f1 := k1["field"]
+				_, f2 := k2["field"]
+				_, u1 := k1["unknown"]
+				_, u2 := k2["unknown"]
+				holders := append(append([]ssa.Value(nil), h1...), h2...)
+				mayAlias := (f1 && len(h2) > 0) || (f2 && len(h1) > 0) || u1 || u2
+				if !mayAlias {
+					continue
+				}
+				pairs++
+				removed := map[c07Edge]bool{}
+				for _, b := range fn.Blocks {
+					for _, in := range b.Instrs {
+						bo, ok := in.(*ssa.BinOp)
+						if !ok {
+							continue
+						}
+						call, ok := bo.X.(*ssa.Call)
+						if !ok || c07Builtin(call.Common()) != "len" {
+							continue
+						}
+						isH := false
+						for _, h := range holders {
+							if c07SameVal(call.Call.Args[0], h) {
+								isH = true
+							}
+						}
+						n, ok := ConstInt(bo.Y)
+						if !ok || !isH {
+							continue
+						}
+						// H holds the entry just read or inserted, so len(H) != 1 means len(H) >= 2
+						twoWhenTrue := (bo.Op == token.GTR && n >= 1) || (bo.Op == token.GEQ && n >= 2) || (bo.Op == token.NEQ && n == 1)
+						twoWhenFalse := (bo.Op == token.LEQ && n >= 1) || (bo.Op == token.LSS && n >= 2) || (bo.Op == token.EQL && n == 1)
+						for _, e := range c07IfEdges(fn, func(v ssa.Value) bool { return v == ssa.Value(bo) }) {
+							if twoWhenTrue {
+								removed[e] = true
+							} else if twoWhenFalse {
+								removed[c07Other(e)] = true
+							}
+						}
+					}
+				}
+				both := c07Reach(fn.Blocks[0], c1.Block(), removed) && c07Reach(c1.Block(), c2.Block(), removed)
+				if len(removed) == 0 || both {
+					bad, badPos = fmt.Sprintf("applies one claim to a cache map read from a field (%s) and to one read from an entry of a map of caches on a path where that map of caches is not known to hold at least two entries; with a single signer both are the same map and the claim is folded twice (add-attribute values doubled)", p.Pos(c1.Pos())), c2.Pos()
+					continue
+				}
+				guarded++
+			}
+		}
+		switch {
+		case bad != "":
+			r.Violation("A-own", construct, p.Pos(badPos), FuncKeyAny(fn)+" "+bad)
+		case pairs > 0:
+			r.OK("A-own", construct, p.Pos(calls[0].Pos()), fmt.Sprintf("%d pair(s) of applications of one claim to two possibly identical cache maps (one read from a field, one from an entry of a map of caches); in each, the two applications cannot both run unless that map of caches is known to hold at least two entries (then the single-signer map is no longer shared)", pairs))
+		}
+	}
+}
+
+// c07MapSourcesH is c07MapSources that tells field holders ("field") from
+// entries of a map of caches ("entry", the map appended to holders).
+func c07MapSourcesH(o *c07Own, v ssa.Value, seen map[ssa.Value]bool, depth int, out map[string]token.Pos, holders *[]ssa.Value) {
+	if v == nil || seen[v] {
+		return
+	}
+	seen[v] = true
+	if depth > 12 {
+		out["unknown"] = v.Pos()
+		return
+	}
+	switch x := v.(type) {
+	case *ssa.MakeMap:
+		out["fresh"] = x.Pos()
+	case *ssa.Const:
+		out["fresh"] = token.NoPos
+	case *ssa.ChangeType:
+		c07MapSourcesH(o, x.X, seen, depth+1, out, holders)
+	case *ssa.Convert:
+		c07MapSourcesH(o, x.X, seen, depth+1, out, holders)
+	case *ssa.Phi:
+		for _, e := range x.Edges {
+			c07MapSourcesH(o, e, seen, depth+1, out, holders)
+		}
+	case *ssa.Lookup:
+		out["entry"] = x.Pos()
+		*holders = append(*holders, x.X)
+	case *ssa.Extract:
+		switch t := x.Tuple.(type) {
+		case *ssa.Lookup:
+			out["entry"] = x.Pos()
+			*holders = append(*holders, t.X)
+		case *ssa.Next:
+			out["entry"] = x.Pos()
+			if rg, ok := t.Iter.(*ssa.Range); ok {
+				*holders = append(*holders, rg.X)
+			}
+		default:
+			out["unknown"] = x.Pos()
+		}
+	case *ssa.UnOp:
+		if x.Op != token.MUL {
+			out["unknown"] = x.Pos()
+			return
+		}
+		if cell, ok := varOf(x.X); ok {
+			if al, isAlloc := cell.(*ssa.Alloc); isAlloc {
+				for _, st := range storesTo(al) {
+					c07MapSourcesH(o, st.Val, seen, depth+1, out, holders)
+				}
+				return
+			}
+		}
+		if _, ok := x.X.(*ssa.FieldAddr); ok {
+			out["field"] = x.Pos()
+			return
+		}
+		out["unknown"] = x.Pos()
+	case *ssa.Field:
+		out["field"] = x.Pos()
+	default:
+		out["unknown"] = v.Pos()
+	}
+}
+
+// c07MapSources classifies where a cache map value comes from: "fresh"
+// (make/nil), "shared" (read from a holder), "unknown".
+func c07MapSources(o *c07Own, v ssa.Value, seen map[ssa.Value]bool, depth int, out map[string]token.Pos) {
+	if v == nil || seen[v] {
+		return
+	}
+	seen[v] = true
+	if depth > 12 {
+		out["unknown"] = v.Pos()
+		return
+	}
+	switch x := v.(type) {
+	case *ssa.MakeMap:
+		out["fresh"] = x.Pos()
+	case *ssa.Const:
+		out["fresh"] = token.NoPos
+	case *ssa.ChangeType:
+		c07MapSources(o, x.X, seen, depth+1, out)
+	case *ssa.Convert:
+		c07MapSources(o, x.X, seen, depth+1, out)
+	case *ssa.Phi:
+		for _, e := range x.Edges {
+			c07MapSources(o, e, seen, depth+1, out)
+		}
+	case *ssa.Lookup:
+		out["shared"] = x.Pos()
+	case *ssa.Extract:
+		switch t := x.Tuple.(type) {
+		case *ssa.Lookup, *ssa.Next:
+			out["shared"] = x.Pos()
+		case *ssa.Call:
+			c07MapSourcesCall(o, t, x.Index, seen, depth, out)
+		default:
+			out["unknown"] = x.Pos()
+		}
+	case *ssa.Call:
+		c07MapSourcesCall(o, x, 0, seen, depth, out)
+	case *ssa.UnOp:
+		if x.Op != token.MUL {
+			out["unknown"] = x.Pos()
+			return
+		}
+		if cell, ok := varOf(x.X); ok {
+			if al, isAlloc := cell.(*ssa.Alloc); isAlloc {
+				sts := storesTo(al)
+				if len(sts) == 0 {
+					out["fresh"] = x.Pos() // zero value
+				}
+				for _, st := range sts {
+					c07MapSources(o, st.Val, seen, depth+1, out)
+				}
+				return
+			}
+		}
+		out["shared"] = x.Pos() // a field, global or element: some other holder
+	case *ssa.Parameter:
+		// a helper that stores its argument: fresh if every caller passes a fresh map;
+		// a shared map cannot be judged here (the emptiness test would be in the caller)
+		fn := x.Parent()
+		idx := -1
+		for i, q := range fn.Params {
+			if q == x {
+				idx = i
+			}
+		}
+		if idx < 0 || fn.Parent() != nil || len(o.p.FuncValueUses(fn)) > 0 || (fn.Signature.Recv() != nil && len(o.p.InvokeSites(fn)) > 0) {
+			out["unknown"] = x.Pos()
+			return
+		}
+		n := 0
+		for _, c := range o.p.StaticCallers(fn) {
+			if !o.inScope[c.Fn] || idx >= len(c.Common().Args) {
+				continue
+			}
+			n++
+			sub := map[string]token.Pos{}
+			c07MapSources(o, c.Common().Args[idx], seen, depth+1, sub)
+			for k, pos := range sub {
+				if k == "fresh" {
+					out["fresh"] = pos
+				} else {
+					out["unknown"] = pos
+				}
+			}
+		}
+		if n == 0 {
+			out["unknown"] = x.Pos()
+		}
+	default:
+		out["unknown"] = v.Pos()
+	}
+}
+
+func c07MapSourcesCall(o *c07Own, c *ssa.Call, idx int, seen map[ssa.Value]bool, depth int, out map[string]token.Pos) {
+	callee := CallSite{c.Parent(), c}.Callee()
+	if callee == nil || callee.Blocks == nil {
+		out["unknown"] = c.Pos()
+		return
+	}
+	for _, ri := range Returns(callee) {
+		if idx < len(ri.Results) {
+			c07MapSources(o, ri.Results[idx], seen, depth+1, out)
+		}
+	}
+}
+
+// ---- an entry's slice, forward
+
+type c07SliceWalk struct {
+	o      *c07Own
+	root   *c07Root
+	sum    *c07Summary   // non-nil: summarising callee sumFn
+	sumFn  *ssa.Function //
+	seen   map[ssa.Value]bool
+	work   []ssa.Value
+	muts   []c07Mutation
+	issues []c07Issue
+	stores []*ssa.MapUpdate // stores of the (derived) slice into a cache map
+}
+
+func (w *c07SliceWalk) push(v ssa.Value) {
+	if v == nil || w.seen[v] {
+		return
+	}
+	w.seen[v] = true
+	w.work = append(w.work, v)
+}
+
+func (w *c07SliceWalk) issue(bad bool, in ssa.Instruction, what string) {
+	w.issues = append(w.issues, c07Issue{bad, in.Parent(), in.Pos(), what})
+}
+
+func (w *c07SliceWalk) mut(in ssa.Instruction, how string) {
+	fn := in.Parent()
+	if w.root != nil {
+		fn = w.root.fn
+	}
+	w.muts = append(w.muts, c07Mutation{fn: fn, at: in.Parent(), pos: in.Pos(), how: how, root: w.root})
+}
+
+func (w *c07SliceWalk) run() {
+	for len(w.work) > 0 {
+		v := w.work[len(w.work)-1]
+		w.work = w.work[:len(w.work)-1]
+		refs := v.Referrers()
+		if refs == nil {
+			continue
+		}
+		for _, rf := range *refs {
+			w.use(v, rf)
+		}
+	}
+}
+
+func (w *c07SliceWalk) use(v ssa.Value, rf ssa.Instruction) {
+	o := w.o
+	p := o.p
+	switch x := rf.(type) {
+	case *ssa.DebugRef, *ssa.BinOp, *ssa.If:
+	case *ssa.Slice:
+		if x.X == v && !c07ZeroCap(x) {
+			w.push(x)
+		}
+	case *ssa.ChangeType:
+		w.push(x)
+	case *ssa.Convert:
+		if _, ok := x.Type().Underlying().(*types.Slice); ok {
+			w.push(x)
+		}
+	case *ssa.Phi:
+		w.push(x)
+	case *ssa.IndexAddr:
+		if x.X != v {
+			return
+		}
+		if refs := x.Referrers(); refs != nil {
+			for _, u := range *refs {
+				switch y := u.(type) {
+				case *ssa.UnOp, *ssa.DebugRef:
+				case *ssa.Store:
+					if y.Addr == ssa.Value(x) {
+						w.mut(y, "element store")
+					}
+				default:
+					w.issue(false, u, "the address of an element is used other than by a load or store")
+				}
+			}
+		}
+	case *ssa.Index:
+	case *ssa.Store:
+		if x.Val != v {
+			return
+		}
+		switch a := x.Addr.(type) {
+		case *ssa.FieldAddr:
+			w.issue(true, x, "it is stored into field "+c07FieldKey(a.X.Type(), fieldName(a.X.Type(), a.Field)))
+		case *ssa.IndexAddr:
+			w.issue(false, x, "it is stored into an element of a slice or array")
+		default:
+			cell, ok := varOf(x.Addr)
+			if al, isAlloc := cell.(*ssa.Alloc); ok && isAlloc {
+				for _, ld := range c07LoadsOf(al) {
+					w.push(ld)
+				}
+				return
+			}
+			if g, isGlobal := cell.(*ssa.Global); ok && isGlobal {
+				w.issue(true, x, "it is stored into package variable "+g.Name())
+				return
+			}
+			w.issue(false, x, "it is stored through an address this rule does not model")
+		}
+	case *ssa.MapUpdate:
+		if x.Value != v {
+			return
+		}
+		if o.cm[x.Map] {
+			w.stores = append(w.stores, x) // judged as an entry store
+			return
+		}
+		w.issue(true, x, "it is stored into a map that is not an attribute cache")
+	case *ssa.Return:
+		fn := x.Parent()
+		for i, res := range x.Results {
+			if res != v {
+				continue
+			}
+			if w.sum != nil && fn == w.sumFn {
+				w.sum.retAlias[i] = true
+				continue
+			}
+			switch {
+			case fn.Parent() != nil:
+				w.issue(false, x, "it is returned from a function literal")
+			case c07Exported(fn) && o.inScope[fn]:
+				w.issue(true, x, fmt.Sprintf("it is returned by exported %s, i.e. handed to callers outside the cache", FuncKeyAny(fn)))
+			case len(p.FuncValueUses(fn)) > 0 || len(p.InvokeSites(fn)) > 0:
+				w.issue(false, x, fmt.Sprintf("it is returned by %s, which is called dynamically", FuncKeyAny(fn)))
+			default:
+				for _, c := range p.StaticCallers(fn) {
+					for _, rv := range c07ResultValues(c, i) {
+						w.push(rv)
+					}
+				}
+			}
+		}
+	case *ssa.MakeClosure:
+		lf := x.Fn.(*ssa.Function)
+		for i, b := range x.Bindings {
+			if b == v && i < len(lf.FreeVars) {
+				w.push(lf.FreeVars[i])
+			}
+		}
+	case ssa.CallInstruction:
+		cc := x.Common()
+		call, _ := x.(*ssa.Call)
+		switch c07Builtin(cc) {
+		case "len", "cap", "print", "println":
+			return
+		case "append":
+			if cc.Args[0] == v {
+				w.mut(x, "append onto it")
+				if call != nil {
+					w.push(call)
+				}
+			}
+			return // as the appended operand its elements are copied out
+		case "copy":
+			if cc.Args[0] == v {
+				w.mut(x, "copy into it")
+			}
+			return
+		case "clear":
+			w.mut(x, "clear")
+			return
+		case "":
+		default:
+			w.issue(false, x, "it is passed to builtin "+c07Builtin(cc))
+			return
+		}
+		cs := CallSite{x.Parent(), x}
+		callee := cs.Callee()
+		for i, a := range cc.Args {
+			if a != v {
+				continue
+			}
+			if cc.IsInvoke() || callee == nil || callee.Blocks == nil || i >= len(callee.Params) {
+				w.issue(false, x, "it is passed to "+cs.CalleeKey()+", whose body cannot be followed")
+				continue
+			}
+			if _, isGo := x.(*ssa.Go); isGo {
+				w.issue(true, x, "it is handed to a goroutine")
+				continue
+			}
+			s := o.summary(callee, i)
+			for _, m := range s.muts {
+				m.root = w.root
+				if w.root != nil {
+					m.fn = w.root.fn
+				}
+				m.how = "written by " + FuncKeyAny(m.at)
+				w.muts = append(w.muts, m)
+			}
+			w.issues = append(w.issues, s.issues...)
+			for idx := range s.retAlias {
+				for _, rv := range c07ResultValues(cs, idx) {
+					w.push(rv)
+				}
+			}
+		}
+	case *ssa.MakeInterface:
+		if !c07OnlyFormatted(x) {
+			w.issue(false, x, "it is converted to an interface value that is not merely an operand of a fmt/log call")
+		}
+	case *ssa.Send:
+		w.issue(true, x, "it is sent on a channel")
+	default:
+		w.issue(false, rf, fmt.Sprintf("unmodelled use %T", rf))
+	}
+}
+
+// summary: what callee does with the slice passed as parameter idx.
+func (o *c07Own) summary(callee *ssa.Function, idx int) *c07Summary {
+	k := c07SumKey{callee, idx}
+	if s := o.sums[k]; s != nil {
+		return s // finished, or in progress (recursion: the outer activation records the effects)
+	}
+	s := &c07Summary{retAlias: map[int]bool{}}
+	o.sums[k] = s
+	w := &c07SliceWalk{o: o, sum: s, sumFn: callee, seen: map[ssa.Value]bool{}}
+	w.push(callee.Params[idx])
+	w.run()
+	s.muts, s.issues = w.muts, w.issues
+	for _, mu := range w.stores {
+		s.issues = append(s.issues, c07Issue{false, callee, mu.Pos(), "it is stored into a cache map by a callee"})
+	}
+	s.done = true
+	return s
+}
+
+// ---- a stored entry value, backward
+
+type c07Leaf struct {
+	kind      string // fresh | empty | entry | other
+	m, k      ssa.Value
+	viaCaller bool
+	pos       token.Pos
+	what      string
+}
+
+type c07Frame struct {
+	call   *ssa.Call
+	callee *ssa.Function
+}
+
+type c07SrcKey struct {
+	v     ssa.Value
+	depth int
+}
+
+type c07SrcWalk struct {
+	o    *c07Own
+	seen map[c07SrcKey]bool
+	out  []c07Leaf
+}
+
+func (w *c07SrcWalk) leaf(kind string, v ssa.Value, what string) {
+	var pos token.Pos
+	if v != nil {
+		pos = v.Pos()
+	}
+	w.out = append(w.out, c07Leaf{kind: kind, pos: pos, what: what})
+}
+
+// resolve maps a value of the innermost frame's callee back to the caller
+// that the walk started in, when it is a parameter (chain).
+func c07Resolve(v ssa.Value, frames []c07Frame) (ssa.Value, bool) {
+	for i := len(frames) - 1; i >= 0; i-- {
+		prm, ok := originValue(v).(*ssa.Parameter)
+		if !ok || prm.Parent() != frames[i].callee {
+			return v, false
+		}
+		idx := -1
+		for j, q := range frames[i].callee.Params {
+			if q == prm {
+				idx = j
+			}
+		}
+		args := frames[i].call.Call.Args
+		if idx < 0 || idx >= len(args) {
+			return v, false
+		}
+		v = args[idx]
+	}
+	return v, true
+}
+
+func (w *c07SrcWalk) entry(v, m, k ssa.Value, frames []c07Frame, viaCaller bool) {
+	lf := c07Leaf{kind: "entry", pos: v.Pos(), viaCaller: viaCaller}
+	if !lf.pos.IsValid() {
+		lf.pos = m.Pos()
+	}
+	if len(frames) > 0 {
+		rm, okm := c07Resolve(m, frames)
+		var rk ssa.Value
+		okk := false
+		if k != nil {
+			rk, okk = c07Resolve(k, frames)
+		}
+		if okm {
+			lf.m = rm
+		}
+		if okk {
+			lf.k = rk
+		}
+	} else {
+		lf.m, lf.k = m, k
+	}
+	w.out = append(w.out, lf)
+}
+
+func (w *c07SrcWalk) walk(v ssa.Value, frames []c07Frame, viaCaller bool, depth int) {
+	o := w.o
+	p := o.p
+	if v == nil {
+		return
+	}
+	key := c07SrcKey{v, len(frames)}
+	if w.seen[key] {
+		return
+	}
+	w.seen[key] = true
+	if depth > 60 || len(frames) > 6 {
+		w.leaf("other", v, "a value traced too deep")
+		return
+	}
+	switch x := v.(type) {
+	case *ssa.Const:
+		w.leaf("empty", x, "nil")
+	case *ssa.MakeSlice:
+		w.leaf("fresh", x, "make")
+	case *ssa.Slice:
+		if c07ZeroCap(x) {
+			w.leaf("empty", x, "zero-capacity slice")
+			return
+		}
+		if _, isPtr := x.X.Type().Underlying().(*types.Pointer); isPtr {
+			if _, ok := x.X.(*ssa.Alloc); ok {
+				w.leaf("fresh", x, "slice of a new array")
+				return
+			}
+			w.leaf("other", x, "a slice of an array that is not allocated here")
+			return
+		}
+		w.walk(x.X, frames, viaCaller, depth+1)
+	case *ssa.ChangeType:
+		w.walk(x.X, frames, viaCaller, depth+1)
+	case *ssa.Convert:
+		w.walk(x.X, frames, viaCaller, depth+1)
+	case *ssa.Phi:
+		for _, e := range x.Edges {
+			w.walk(e, frames, viaCaller, depth+1)
+		}
+	case *ssa.Lookup:
+		if o.cm[x.X] {
+			w.entry(x, x.X, x.Index, frames, viaCaller)
+			return
+		}
+		w.leaf("other", x, "an element of a map that is not an attribute cache (its storage has another holder)")
+	case *ssa.Extract:
+		switch t := x.Tuple.(type) {
+		case *ssa.Lookup:
+			if x.Index == 0 && o.cm[t.X] {
+				w.entry(x, t.X, t.Index, frames, viaCaller)
+				return
+			}
+			w.leaf("other", x, "an element of a map that is not an attribute cache (its storage has another holder)")
+		case *ssa.Next:
+			rg, _ := t.Iter.(*ssa.Range)
+			if x.Index == 2 && rg != nil && o.cm[rg.X] {
+				var k ssa.Value
+				if refs := t.Referrers(); refs != nil {
+					for _, u := range *refs {
+						if ex, ok := u.(*ssa.Extract); ok && ex.Index == 1 {
+							k = ex
+						}
+					}
+				}
+				w.entry(x, rg.X, k, frames, viaCaller)
+				return
+			}
+			w.leaf("other", x, "an element ranged out of a map that is not an attribute cache (its storage has another holder)")
+		case *ssa.Call:
+			w.call(t, x.Index, frames, viaCaller, depth)
+		default:
+			w.leaf("other", x, "a component of an unmodelled tuple")
+		}
+	case *ssa.Call:
+		w.call(x, 0, frames, viaCaller, depth)
+	case *ssa.UnOp:
+		if x.Op != token.MUL {
+			w.leaf("other", x, "an unmodelled operator")
+			return
+		}
+		if cell, ok := varOf(x.X); ok {
+			if al, isAlloc := cell.(*ssa.Alloc); isAlloc {
+				sts := storesTo(al)
+				if len(sts) == 0 {
+					w.leaf("empty", x, "zero value")
+				}
+				for _, st := range sts {
+					w.walk(st.Val, frames, viaCaller, depth+1)
+				}
+				return
+			}
+		}
+		switch a := x.X.(type) {
+		case *ssa.FieldAddr:
+			w.leaf("other", x, "the slice held in field "+c07FieldKey(a.X.Type(), fieldName(a.X.Type(), a.Field)))
+		case *ssa.IndexAddr:
+			w.leaf("other", x, "an element of a slice of slices")
+		default:
+			w.leaf("other", x, "a slice loaded from a place this rule does not model")
+		}
+	case *ssa.FreeVar:
+		if b := bindingOf(x); b != nil {
+			w.walk(b, frames, viaCaller, depth+1)
+			return
+		}
+		w.leaf("other", x, "a captured variable")
+	case *ssa.Parameter:
+		fn := x.Parent()
+		idx := -1
+		for i, q := range fn.Params {
+			if q == x {
+				idx = i
+			}
+		}
+		if n := len(frames); n > 0 && frames[n-1].callee == fn {
+			args := frames[n-1].call.Call.Args
+			if idx >= 0 && idx < len(args) {
+				w.walk(args[idx], frames[:n-1], viaCaller, depth+1)
+				return
+			}
+		}
+		if idx < 0 || fn.Parent() != nil || len(p.FuncValueUses(fn)) > 0 || (fn.Signature.Recv() != nil && len(p.InvokeSites(fn)) > 0) {
+			w.leaf("other", x, "a parameter of a function that is called dynamically")
+			return
+		}
+		callers := p.StaticCallers(fn)
+		n := 0
+		for _, c := range callers {
+			if !o.inScope[c.Fn] {
+				continue
+			}
+			args := c.Common().Args
+			if idx < len(args) {
+				n++
+				w.walk(args[idx], nil, true, depth+1)
+			}
+		}
+		if n == 0 {
+			w.leaf("other", x, "a parameter of a function without static callers")
+		}
+	default:
+		w.leaf("other", v, fmt.Sprintf("an unmodelled value %T", v))
+	}
+}
+
+func (w *c07SrcWalk) call(c *ssa.Call, idx int, frames []c07Frame, viaCaller bool, depth int) {
+	cc := c.Common()
+	switch c07Builtin(cc) {
+	case "append":
+		// the result lives in the first operand's array or in a new one; the appended elements are copied
+		w.walk(cc.Args[0], frames, viaCaller, depth+1)
+		return
+	case "":
+	default:
+		w.leaf("other", c, "the result of builtin "+c07Builtin(cc))
+		return
+	}
+	cs := CallSite{c.Parent(), c}
+	callee := cs.Callee()
+	if cc.IsInvoke() || callee == nil || callee.Blocks == nil {
+		w.leaf("other", c, "the result of "+cs.CalleeKey()+", whose body cannot be followed")
+		return
+	}
+	for _, fr := range frames {
+		if fr.callee == callee {
+			w.leaf("other", c, "the result of a recursive call")
+			return
+		}
+	}
+	nf := append(append([]c07Frame(nil), frames...), c07Frame{c, callee})
+	for _, ri := range Returns(callee) {
+		if idx < len(ri.Results) {
+			w.walk(ri.Results[idx], nf, viaCaller, depth+1)
+		}
+	}
 }
